@@ -7,6 +7,7 @@
 #include <stdlib.h>
 #include <assert.h>
 #include <iso646.h>   /* R7: and / or / not tokens */
+#include <stdbool.h>  /* C++ bool, true, false */
 #include "tfhe.h"
 /* file-scope constants that numeric_functions.h defines only under __cplusplus,
  * copied verbatim from the real header on every run (tools/extract.py) */
